@@ -1779,8 +1779,11 @@ class ScatterStep(BaseStep):
             name=port.name,
             workflow=self.workflow,
         )
+        # Tokens already in the port were injected because they are available:
+        # they must not be discarded by the filter, which only selects the
+        # tags that the resumed step has to regenerate
         for token in port.token_list:
-            self.workflow.ports[port.name].put(token)
+            Port.put(self.workflow.ports[port.name], token)
 
     async def run(self) -> None:
         if len(self.input_ports) != 1:
